@@ -1,6 +1,6 @@
 (* C19 - try_first / try_last priorities are honoured among ready tasks. *)
 From Coq Require Import Sorting.Permutation.
-From Verif Require Import Base.Prelude Model.Sorter Proofs.SorterProofs.
+From Verif Require Import Base.Prelude Model.Sorter Proofs.SorterProofs Proofs.SorterTies.
 Local Open Scope Z_scope.
 
 (* The scheduler's algorithm (sort the ready set, in any set-iteration order, by
@@ -45,6 +45,27 @@ Example C19_nonvacuous :
   /\ valid_batchb s 2 [1;2]%N = true /\ valid_batchb s 2 [3;2]%N = false.
 Proof. vm_compute. repeat split. Qed.
 
+(* whatever the iteration order of the ready set (hash seed): two valid batches of one state differ
+   only in ties - a task picked by one and not by the other has the priority of its counterpart *)
+Theorem C19_batches_differ_only_in_ties : forall s n b1 b2 x y,
+  valid_batch s n b1 -> valid_batch s n b2 ->
+  In x b1 -> ~ In x b2 -> In y b2 -> ~ In y b1 -> pr s x = pr s y.
+Proof. exact batches_differ_only_in_ties. Qed.
+
+(* with pairwise distinct priorities among the ready tasks the pick is the same for every order *)
+Theorem C19_get_ready_order_independent : forall s n o1 o2,
+  (forall x y, In x (ready s) -> In y (ready s) -> pr s x = pr s y -> x = y) ->
+  NoDup o1 -> Permutation o1 (ready s) -> NoDup o2 -> Permutation o2 (ready s) -> (1 <= n)%nat ->
+  forall x, In x (get_ready s n o1) <-> In x (get_ready s n o2).
+Proof. exact get_ready_order_independent. Qed.
+
+Example C19_ties_example :
+  let s := mkSorter [1;2;3;4]%N [] [(1%N,1);(4%N,-1)] [] [] in
+  get_ready s 2 [1;2;3;4]%N = [3;1]%N /\ get_ready s 2 [4;3;2;1]%N = [2;1]%N /\ pr s 2%N = pr s 3%N.
+Proof. exact ties_example. Qed.
+
+Print Assumptions C19_batches_differ_only_in_ties.
+Print Assumptions C19_get_ready_order_independent.
 Print Assumptions C19_get_ready_valid.
 Print Assumptions C19_batch_is_top_n.
 Print Assumptions C19_try_first_before_unmarked.
